@@ -90,7 +90,7 @@ fn wire_traits(rep: &mut Report, w: &WMsg) {
 
 const BAD_TAGS: [u8; 12] = [0x00, 0x06, 0x07, 0x0a, 0x0f, 0x4b, 0x4c, 0x7f, 0x80, 0xc3, 0xfe, 0xff];
 
-fn c04_judge(rep: &mut Report, label: &str, bytes: Vec<u8>, expected: &Model, replay: &[String]) {
+pub(crate) fn c04_judge(rep: &mut Report, label: &str, bytes: Vec<u8>, expected: &Model, replay: &[String]) {
     rep.eval();
     let data = Arc::new(bytes);
     let (o, _) = sync_parse(&data, Plan::full());
@@ -116,7 +116,7 @@ fn c04_judge(rep: &mut Report, label: &str, bytes: Vec<u8>, expected: &Model, re
     }
 }
 
-fn c04_bad_tags(rep: &mut Report, label: &str, bytes: &[u8], rng: &mut Rng, replay: &[String]) {
+pub(crate) fn c04_bad_tags(rep: &mut Report, label: &str, bytes: &[u8], rng: &mut Rng, replay: &[String]) {
     let hl = match ippref::head_len(bytes) {
         Some(h) => h,
         None => return,
@@ -247,7 +247,7 @@ pub fn run_c04(args: &Args, tier: &str, seed: u64) -> Report {
 // =================================================================== schedules
 
 /// pending/interrupt decoration of a composition: per-boundary not-ready pattern
-fn decorate(chunks: &[usize], pattern: usize, salt: u64) -> Vec<Step> {
+pub(crate) fn decorate(chunks: &[usize], pattern: usize, salt: u64) -> Vec<Step> {
     let mut steps = vec![];
     for (i, &c) in chunks.iter().enumerate() {
         let p = if pattern == 7 { (hash64(&[(salt >> 8) as u8, salt as u8, i as u8, (i >> 8) as u8]) % 7) as usize } else { pattern };
@@ -269,7 +269,7 @@ fn decorate(chunks: &[usize], pattern: usize, salt: u64) -> Vec<Step> {
     steps
 }
 
-fn random_composition(rng: &mut Rng, n: usize) -> Vec<usize> {
+pub(crate) fn random_composition(rng: &mut Rng, n: usize) -> Vec<usize> {
     let mut v = vec![];
     let mut left = n;
     let style = rng.below(4);
@@ -289,7 +289,7 @@ fn random_composition(rng: &mut Rng, n: usize) -> Vec<usize> {
 
 // =================================================================== C05
 
-fn c05_compare(rep: &mut Report, label: &str, data: &Arc<Vec<u8>>, reference: &Outcome, plan: Plan, sched: &str, replay: &[String]) {
+pub(crate) fn c05_compare(rep: &mut Report, label: &str, data: &Arc<Vec<u8>>, reference: &Outcome, plan: Plan, sched: &str, replay: &[String]) {
     rep.eval();
     let (a, _, st) = async_parse(data, plan);
     rep.count("async_polls", st.polls as i64);
@@ -433,10 +433,10 @@ pub fn run_c05(args: &Args, tier: &str, seed: u64) -> Report {
 
 // =================================================================== C06
 
-struct Wf {
-    bytes: Arc<Vec<u8>>,
-    head_len: usize,
-    label: String,
+pub(crate) struct Wf {
+    pub bytes: Arc<Vec<u8>>,
+    pub head_len: usize,
+    pub label: String,
 }
 
 fn c06_payload(rng: &mut Rng, idx: u64, tier: &str) -> Vec<u8> {
@@ -464,7 +464,7 @@ fn c06_payload(rng: &mut Rng, idx: u64, tier: &str) -> Vec<u8> {
     }
 }
 
-fn c06_msg(seed: u64, idx: u64, tier: &str) -> Wf {
+pub(crate) fn c06_msg(seed: u64, idx: u64, tier: &str) -> Wf {
     let mut w = corpus::wellformed_wire(seed ^ 0xC06, idx, idx % 131 == 0);
     let mut r = Rng::fork(seed ^ 0xC0600, idx);
     w.data = c06_payload(&mut r, idx, tier);
@@ -476,7 +476,7 @@ fn c06_msg(seed: u64, idx: u64, tier: &str) -> Wf {
 }
 
 /// one (message, plan) run of all four entry points; `reference` = unfragmented result
-fn c06_run(rep: &mut Report, wf: &Wf, plan: &Plan, sched: &str, reference: &Model, replay: &[String]) {
+pub(crate) fn c06_run(rep: &mut Report, wf: &Wf, plan: &Plan, sched: &str, reference: &Model, replay: &[String]) {
     let payload = &wf.bytes[wf.head_len..];
     let viol = |rep: &mut Report, sig: &str, msg: String| {
         rep.violation(format!("C06:{sig}"), format!("{} schedule {sched}: {msg}; head={}B payload={}B head_hex={}", wf.label, wf.head_len, payload.len(), hex_short(&wf.bytes[..wf.head_len], 300)), replay.to_vec());
